@@ -25,10 +25,11 @@ def roundtrip_sym(p):
     layout, K, m, upper, form = p["layout"], p["K"], p["m"], p["upper"], p["form"]
     n = sum(layout)
     bins = concrete_bins(layout, p["kind"])
-    b1, b2, v = sym_pixels(n, K, upper)
+    b1, b2, v = sym_pixels(n, K, upper, vhi=p.get("vhi", 9))
     w = [sym_int(f"w{q}", -3, 3) for q in range(K)]
     cols = {"bin1_id": b1, "bin2_id": b2, "count": v, "w": w}
     cuts = sym_cuts(K, m) if form == "iter" else [0, K]
+    cover("count_at_type_limit", or_(*[x == 2**31 - 1 for x in v]) if K else False)
     dts = {"bin1_id": "int64", "bin2_id": "int64", "count": "int32", "w": "float64"}
     mk = lambda items, k: SArr(list(items), dts[k])  # noqa
     path = scratch_file("c01.cool")
@@ -109,6 +110,8 @@ def _cases(tier):
                 if form != "iter" and (K, m) != specs[0][2:]:
                     continue
                 out.append(dict(layout=list(layout), kind=kind, K=K, m=m, upper=upper, form=form))
+    # values over the whole range of the default count type (every value that fits must be stored, none may be refused)
+    out.append(dict(layout=[2], kind="fixed", K=1, m=1, upper=True, form="iter", vhi=2**31 - 1))
     return out
 
 
@@ -165,7 +168,7 @@ def loader_real(p, inputs):
 
 
 CHECKS = [
-    Check("roundtrip", _cases, roundtrip_sym, roundtrip_real, labels=("empty_chunk", "diagonal"),
+    Check("roundtrip", _cases, roundtrip_sym, roundtrip_real, labels=("empty_chunk", "diagonal", "count_at_type_limit"),
           doc="create_cooler(ordered) -> Cooler.pixels/matrix/info on symbolic sorted records, every chunking, both modes",
           bounds=dict(quick="<=2 chromosomes, n<=3 bins, K<=3 records, m<=2 chunks; forms iterable/DataFrame/dict",
                       thorough="<=3 chromosomes, n<=4, K<=4, m<=3"),
